@@ -21,6 +21,10 @@ pub enum Ty {
    CPropU8,
    PairU32,
    ProdU32DualU32,
+   /// `(Dual<u32>, u32)`: the shipped lexicographic tuple lattice over a reversed first component
+   PairDualU32,
+   /// `Dual<Set<u8>>`: join is intersection
+   DualSetU8,
 }
 
 impl Ty {
@@ -42,10 +46,12 @@ impl Ty {
          Ty::CPropU8 => "::ascent::lattice::constant_propagation::ConstPropagation<u8>",
          Ty::PairU32 => "(u32, u32)",
          Ty::ProdU32DualU32 => "::vglue::HProd",
+         Ty::PairDualU32 => "(::ascent::Dual<u32>, u32)",
+         Ty::DualSetU8 => "::ascent::Dual<::ascent::lattice::set::Set<u8>>",
       }
    }
    pub fn is_copy(self) -> bool {
-      !matches!(self, Ty::Str | Ty::SetU8 | Ty::BSetU8)
+      !matches!(self, Ty::Str | Ty::SetU8 | Ty::BSetU8 | Ty::DualSetU8)
    }
    pub fn is_int(self) -> bool { matches!(self, Ty::I32 | Ty::U32 | Ty::U8 | Ty::Usize) }
    pub fn suffix(self) -> &'static str {
